@@ -176,6 +176,9 @@ func vNow() int64 {
 // express times relative to vNow()).
 func vFixNow(t int64) {}
 
+// vAdvanceClock lets n seconds pass on the engine clock (native: a moment of real time passes).
+func vAdvanceClock(n int) { time.Sleep(2 * time.Millisecond) }
+
 // vNoteBase64 / vBase64Source: the reference encoder records (text, source octets) so that decoding exactly that
 // text again is the identity at term level (engine only; natively nothing is recorded and decoders run normally).
 func vNoteBase64(text string, src []byte)       {}
